@@ -363,6 +363,9 @@ func c12StructuredDocs(quick bool) [][]byte {
 	for _, d := range TabCodeDocs() {
 		add(d)
 	}
+	for _, d := range CountDocs(map[bool]int{true: 40, false: 200}[quick]) {
+		add(d)
+	}
 	return docs
 }
 
